@@ -46,6 +46,14 @@ def run_triple(C, val, enc):
     rows = [tuple(t if c else f for c in r) for r in val['rows']]
     if enc % 2:
         objs, props = tuple(objs), tuple(props)
+    # the constructor documents Iterable[str] names and an Iterable of row tuples: one-shot iterators in rotation
+    k = enc % 7
+    if k == 3:
+        rows = iter(rows)
+    elif k == 4:
+        objs, props = iter(objs), (x for x in props)
+    elif k == 5:
+        objs, props, rows = (x for x in objs), iter(props), (r for r in rows)
     try:
         ctx = C.Context(objs, props, rows)
     except Exception as exc:
